@@ -93,6 +93,9 @@ LAYOUTS = {
     "inherit_dup": {"app": ["a", "b"], "base": ["p", "q", "p"], "svc": ["a", "q", "b"],
                     "meth": ["a"]},
     "inherit_only": {"app": ["a"], "base": ["p", "q"]},
+    # two listener-carrying base services (multiple inheritance), both listening to every event
+    "inherit2": {"app": ["a"], "base": ["p", "q"], "base2": ["r", "s"], "svc": ["a"]},
+    "inherit2_only": {"app": ["a"], "base": ["p"], "base2": ["r", "s", "r"]},
 }
 LAYOUT_IDS = tuple(LAYOUTS)
 
@@ -207,7 +210,7 @@ class Env(object):
 
         # registration lists per level and event ------------------------------------
         self.reg = reg = {}
-        for level in ("app", "base", "svc", "meth"):
+        for level in ("app", "base", "base2", "svc", "meth"):
             ids = list(lay.get(level, ()))
             reg[level] = {}
             for ev in EVENTS:
@@ -221,7 +224,7 @@ class Env(object):
         def listener(mgr, lid, ev):
             # 'base' and 'svc' registrations of one id share one function: the trace names the
             # manager that runs them ('svc')
-            tl = "svc" if mgr == "base" else mgr
+            tl = "svc" if mgr in ("base", "base2") else mgr
             key = (tl, lid, ev)
             if key not in fns:
                 if lid == "x":
@@ -268,7 +271,12 @@ class Env(object):
         else:
             Base = Service
         self.Base = Base
-        self.Svc = type("Svc", (Base,), {
+        bases = (Base,)
+        if "base2" in lay:
+            Base2 = type("BaseSvc2", (Service,), {})
+            register(Base2.event_manager, "base2")
+            bases = (Base, Base2)
+        self.Svc = type("Svc", bases, {
             "m": rpc(Integer(ge=0), Unicode, **kw_m)(m),
             "u": rpc(Integer(ge=0), Unicode, **kw_u)(u),
         })
@@ -302,9 +310,11 @@ class Env(object):
             return out
         if level == "svc":
             inh = dedupe(self.reg["base"][ev])
-            own = [x for x in dedupe(self.reg["svc"][ev]) if x not in inh]
+            inh2 = [x for x in dedupe(self.reg["base2"][ev]) if x not in inh]
+            own = [x for x in dedupe(self.reg["svc"][ev]) if x not in inh + inh2]
             return [("svc-inherited", inh, list(self.reg["base"][ev])),
-                    ("svc", own, [x for x in self.reg["svc"][ev] if x not in inh])]
+                    ("svc-inherited2", inh2, [x for x in self.reg["base2"][ev] if x not in inh]),
+                    ("svc", own, [x for x in self.reg["svc"][ev] if x not in inh + inh2])]
         return [(level, dedupe(self.reg[level][ev]), list(self.reg[level][ev]))]
 
 
@@ -540,7 +550,7 @@ class Oracle(object):
         tl = _blocks(E.trace)
         lay = LAYOUTS[case["layout"]]
         levels = ["app"]
-        if lay.get("base") or lay.get("svc") or case["rlevel"] in ("base", "svc"):
+        if lay.get("base") or lay.get("base2") or lay.get("svc") or case["rlevel"] in ("base", "svc"):
             levels.append("svc")
         if E.meth_mgr is not None:
             levels.append("meth")
@@ -577,8 +587,8 @@ class Oracle(object):
                     self.fail("C14|listeners:unexpected|%s" % l,
                               "%s: %s manager ran %r" % (ev, l, obs))
                 k = max([k for _, k in ks] or [0])
-                if len(ks) == 2 and not raiser and ks[0][1] != ks[1][1]:
-                    which = ks[0][0] if ks[0][1] < ks[1][1] else ks[1][0]
+                if len(ks) >= 2 and not raiser and len(set(x[1] for x in ks)) > 1:
+                    which = min(ks, key=lambda x: x[1])[0]
                     self.fail("C14|listeners:missing|%s" % which,
                               "%s: the %s listeners did not run although the other listeners of "
                               "the service manager did (%r)" % (ev, which, obs))
